@@ -6,11 +6,11 @@
   (plain values, arrays of any nesting, `N x value`, `start … end` with a delta) of any length;
   the C functions see its memory layout `flatList s` with `size = (flatList s).length`.
   `expandList s = some vs` says that `s` denotes the value list `vs`: all ranges are finite
-  (`num ≥ 1`), their arithmetic `start + i·delta` (exact int32/int64/float/double arithmetic,
-  `rangeVal`) is defined, and a repeated value is a plain value or an array.
+  (`num ≥ 1`), their arithmetic `start + i·delta` (wrapping int32/int64, exact float/double
+  arithmetic, `rangeVal`) is defined, and a repeated value is a plain value or an array.
   `Val.noNaNList vs` excludes NaN.  `fuel` is the model's recursion bound; `fuelFor` always suffices.
   The model is the code with fixes C16-blob-prefix, C16-array-type, C16-itr-repeated-array
-  and C01-avmessage applied.  Only the sign of `cmp` is specified (`memcmp`/`strcmp` by sign).
+  C01-avmessage and C10-10-argval-math-wrap applied.  Only the sign of `cmp` is specified (`memcmp`/`strcmp` by sign).
 -/
 import RtoscModel.Proofs.ArgValBridge
 namespace Rtosc.ArgVal
@@ -24,22 +24,17 @@ theorem cmp_lexicographic (s t : List Item) (vs vt : List Val)
     (hs : expandList s = some vs) (ht : expandList t = some vt)
     (fuel : Nat) (hf : fuelFor vs vt ≤ fuel) :
     cmp fuel (flatList s) (flatList t) (flatList s).length (flatList t).length
-      = .ok (Val.cmpList vs vt) := by
-  have := (cmp_bridge fuel).1 s t [] [] vs vt hs ht (by simpa [fuelFor] using hf)
-  simpa using this
+      = .ok (Val.cmpList vs vt) :=
+  cmp_flat_spec s t vs vt hs ht fuel hf
 
-/-- the equality test computes "the order says equal" -/
+/-- **eq_spec**: the equality test computes "the order says equal" (the `eq` half of
+    `cmp_zero_iff_eq`, for every pair of lists, NaN or not). -/
 theorem eq_spec (s t : List Item) (vs vt : List Val)
     (hs : expandList s = some vs) (ht : expandList t = some vt)
     (fuel : Nat) (hf : fuelFor vs vt ≤ fuel) :
     eq fuel (flatList s) (flatList t) (flatList s).length (flatList t).length
-      = .ok (decide (Val.cmpList vs vt = 0)) := by
-  have := (eq_bridge fuel).1 s t [] [] vs vt hs ht (by simpa [fuelFor] using hf)
-  simpa using this
-
-theorem okList_of_expand {s : List Item} {vs : List Val} (hs : expandList s = some vs)
-    (hn : Val.noNaNList vs = true) : Val.okList vs = true :=
-  okList_of_leaves_noNaN vs (expandList_leaves s vs hs) hn
+      = .ok (decide (Val.cmpList vs vt = 0)) :=
+  eq_flat_spec s t vs vt hs ht fuel hf
 
 /-- **cmp_refl**: every list compares equal to itself. -/
 theorem cmp_refl (s : List Item) (vs : List Val) (hs : expandList s = some vs)
@@ -100,25 +95,6 @@ theorem cmp_zero_iff_eq (s t : List Item) (vs vt : List Val)
       cmp fuel (flatList s) (flatList t) (flatList s).length (flatList t).length = .ok c ∧
       (e = true ↔ c = 0) :=
   ⟨_, _, eq_spec s t vs vt hs ht fuel hf, cmp_lexicographic s t vs vt hs ht fuel hf, by simp⟩
-
-/-- `rtosc_arg_vals_cmp` on two one-value lists -/
-theorem cmp_single_value (a b : Cell) (ha : a.isScalar = true) (hb : b.isScalar = true)
-    (fuel : Nat) (hf : 4 ≤ fuel) : cmp fuel [a] [b] 1 1 = .ok (cmpScalar a b) := by
-  have h := cmp_lexicographic [.val a] [.val b] [.sc a] [.sc b]
-    (by simp [expandList, Item.expand, ha]) (by simp [expandList, Item.expand, hb]) fuel
-    (by simpa [fuelFor, Val.sizeList, Val.size] using hf)
-  rw [show (flatList [Item.val a]) = [a] from rfl, show (flatList [Item.val b]) = [b] from rfl] at h
-  simp only [List.length_cons, List.length_nil, Nat.zero_add] at h
-  rw [h]
-  simp only [Val.cmpList, Val.cmp, Val.head]
-  by_cases e : cmpScalar a b = 0 <;> simp [e]
-
-/-- a proper prefix is smaller in `lexCmp`, whatever follows -/
-theorem lexCmp_prefix (a : Bytes) (x : UInt8) (r : Bytes) :
-    lexCmp a (a ++ x :: r) = -1 ∧ lexCmp (a ++ x :: r) a = 1 := by
-  induction a with
-  | nil => simp [lexCmp]
-  | cons y ys ih => simp [lexCmp, ih]
 
 /-- **orders_as_documented**: numbers are ordered numerically, strings lexicographically
     (`lexCmp` on the bytes up to the terminator, unsigned), blobs bytewise with a proper prefix
